@@ -5,25 +5,29 @@ import (
 	"fmt"
 	"hash"
 	"io"
+	"strings"
+	"sync"
 )
 
-// EventLog receives every observable event of a simulated execution. It only
-// hashes (and optionally writes) — it never draws from a PRNG or reads a clock.
+// EventLog receives every observable event of a simulated execution. It only hashes (and optionally
+// writes) — it never draws from a PRNG or reads a clock. A tool under test may read its input in a
+// goroutine of its own, so events arrive on two streams (what the reader side did: R/C lines; what the
+// statement loop did: W/E lines). Each stream is deterministic, their interleaving is not the
+// simulator's to decide; the log therefore keeps the streams apart within a case and emits them in a
+// fixed order (reader stream first) when the case ends.
 type EventLog struct {
-	h hash.Hash
-	w io.Writer // optional full log
-	N int
+	mu sync.Mutex
+	h  hash.Hash
+	w  io.Writer // optional full log
+	N  int
+	rs []string // reader-side events of the current case
+	ws []string // writer-side events of the current case
 }
 
 // NewEventLog returns a log hashing into sha256, copying lines to w if non-nil.
 func NewEventLog(w io.Writer) *EventLog { return &EventLog{h: sha256.New(), w: w} }
 
-// Add records one event line.
-func (l *EventLog) Add(format string, args ...any) {
-	if l == nil {
-		return
-	}
-	s := fmt.Sprintf(format, args...)
+func (l *EventLog) emit(s string) {
 	l.h.Write([]byte(s))
 	l.h.Write([]byte{'\n'})
 	l.N++
@@ -33,8 +37,38 @@ func (l *EventLog) Add(format string, args ...any) {
 	}
 }
 
+// Add records one event line.
+func (l *EventLog) Add(format string, args ...any) {
+	if l == nil {
+		return
+	}
+	s := fmt.Sprintf(format, args...)
+	l.mu.Lock()
+	defer l.mu.Unlock()
+	switch {
+	case strings.HasPrefix(s, "R ") || strings.HasPrefix(s, "C "):
+		l.rs = append(l.rs, s)
+	case strings.HasPrefix(s, "W ") || strings.HasPrefix(s, "E "):
+		l.ws = append(l.ws, s)
+	default:
+		// a structural line (SEED, SCRIPT, CASE, RET) ends the streams collected so far
+		for _, x := range l.rs {
+			l.emit(x)
+		}
+		for _, x := range l.ws {
+			l.emit(x)
+		}
+		l.rs, l.ws = l.rs[:0], l.ws[:0]
+		l.emit(s)
+	}
+}
+
 // Digest returns the hex digest of everything logged so far.
-func (l *EventLog) Digest() string { return fmt.Sprintf("%x", l.h.Sum(nil)) }
+func (l *EventLog) Digest() string {
+	l.mu.Lock()
+	defer l.mu.Unlock()
+	return fmt.Sprintf("%x", l.h.Sum(nil))
+}
 
 // simReader is the simulated disk/pipe behind one input file.
 type simReader struct {
